@@ -261,3 +261,23 @@ V("c20-uniform-n-plus", "C20", "fire", NO, "return lambda n: np.random.uniform(l
 V("c20-normal-shifted", "C20", "fire", NO, "return lambda n: np.random.normal(mean, var**0.5, n)", "return lambda n: np.random.normal(mean, var**0.5, n) + mean", rule="RESULT", what="mean added twice")
 V("c20-silent-kwargs", "C20", "silent", NO, "return lambda n: np.random.laplace(mean, scale, n)", "return lambda n: np.random.laplace(loc=mean, scale=scale, size=n)", what="keyword slots")
 V("c20-silent-def", "C20", "silent", NO, "    return lambda n: np.random.uniform(lo, hi, n)", "    def draw(n):\n        return np.random.uniform(lo, hi, n)\n    return draw", what="nested def for lambda")
+
+# ------------------------------------------------------------------------------- C11
+V("c11-triu-k0", "C11", "fire", GE, "    A = np.triu(A, k=1)\n    weights", "    A = np.triu(A, k=0)\n    weights", rule="TRIU", what="diagonal kept: self-loops")
+V("c11-full-no-triu", "C11", "fire", GE, "A = np.triu(np.ones((p, p)), k=1)", "A = np.ones((p, p)) - np.eye(p)", rule="TRIU", what="complete digraph, not a DAG")
+V("c11-rows-only", "C11", "fire", GE, "        return (W[permutation, :][:, permutation], np.argsort(permutation))\n    else:\n        return W[permutation, :][:, permutation]\n\n\ndef dag_full",
+  "        return (W[permutation, :], np.argsort(permutation))\n    else:\n        return W[permutation, :]\n\n\ndef dag_full", rule="PERM", what="only rows permuted")
+V("c11-two-perms", "C11", "fire", GE, "    permutation = rng.permutation(p)\n    # Note the actual topological ordering is the \"conjugate\" of permutation eg. [3,1,2] -> [2,3,1]\n    if return_ordering:\n        return (W[permutation, :][:, permutation], np.argsort(permutation))\n    else:\n        return W[permutation, :][:, permutation]",
+  "    permutation = rng.permutation(p)\n    cols = rng.permutation(p)\n    if return_ordering:\n        return (W[permutation, :][:, cols], np.argsort(permutation))\n    else:\n        return W[permutation, :][:, cols]", rule="PERM.same-axes", what="different permutation per axis")
+V("c11-ordering-is-perm", "C11", "fire", GE, "        return (W[permutation, :][:, permutation], np.argsort(permutation))\n    else:\n        return W[permutation, :][:, permutation]\n\n\ndef dag_full",
+  "        return (W[permutation, :][:, permutation], permutation)\n    else:\n        return W[permutation, :][:, permutation]\n\n\ndef dag_full", rule="PERM.ordering", what="returns the permutation instead of its inverse")
+V("c11-identity-perm", "C11", "fire", GE, "    permutation = rng.permutation(p)\n    # Note the actual topological ordering is the \"conjugate\" of permutation eg. [3,1,2] -> [2,3,1]\n    print(", "    permutation = np.arange(p)\n    # Note the actual topological ordering is the \"conjugate\" of permutation eg. [3,1,2] -> [2,3,1]\n    print(", rule="PERM.random", what="ordering not random")
+V("c11-paths-differ", "C11", "fire", GE, "    else:\n        return W[permutation, :][:, permutation]\n\n\ndef dag_full", "    else:\n        return W\n\n\ndef dag_full", rule="PERM.both-paths", what="unpermuted matrix without ordering")
+V("c11-prob-over-p", "C11", "fire", GE, "prob = k / (p - 1)", "prob = k / p", rule="BERNOULLI.probability", what="expected degree k(p-1)/p")
+V("c11-prob-inverted-test", "C11", "fire", GE, "A = (A <= prob).astype(float)", "A = (A >= prob).astype(float)", rule="BERNOULLI", what="edge with probability 1-q")
+V("c11-weights-swapped", "C11", "fire", GE, "    A = np.triu(np.ones((p, p)), k=1)\n    weights = rng.uniform(w_min, w_max, size=A.shape)", "    A = np.triu(np.ones((p, p)), k=1)\n    weights = rng.uniform(w_max, w_min, size=A.shape)", rule="WEIGHTS", what="bounds swapped")
+V("c11-weights-added", "C11", "fire", GE, "    W = A * weights\n    # Permute rows/columns according to random topological ordering\n    permutation = rng.permutation(p)\n    # Note the actual topological ordering is the \"conjugate\" of permutation eg. [3,1,2] -> [2,3,1]\n    if return_ordering:",
+  "    W = A + weights\n    # Permute rows/columns according to random topological ordering\n    permutation = rng.permutation(p)\n    # Note the actual topological ordering is the \"conjugate\" of permutation eg. [3,1,2] -> [2,3,1]\n    if return_ordering:", rule="WEIGHTS", what="weights not masked: dense matrix")
+V("c11-silent-lt", "C11", "silent", GE, "A = (A <= prob).astype(float)", "A = (prob > A).astype(float)", what="equivalent threshold")
+V("c11-silent-cols-first", "C11", "silent", GE, "    else:\n        return W[permutation, :][:, permutation]\n\n\ndef dag_full", "    else:\n        return W[:, permutation][permutation, :]\n\n\ndef dag_full", what="columns first")
+V("c11-silent-prob-form", "C11", "silent", GE, "prob = k / (p - 1)", "prob = float(k) / (p - 1.0)", what="float spelling of k/(p-1)")
